@@ -991,10 +991,15 @@ func master(c core.Cfg) int {
 		pc = core.SpawnWorkers(cc, nc, func(int) []string { return []string{"VERIF_ONLY_GEN=pb-"} }, func(int) int { return 1 })
 		done <- struct{}{}
 	}()
+	// sub-check (d): a command-line run with closure flags loops in the process while
+	// another command-line run compiles (what a run sets must not leak into the other)
+	cd := c
+	cd.Mode, cd.Bin = "cli", orderBin
+	pd := core.SpawnWorkers(cd, 1, budget, func(int) int { return 4 })
 	for i := 0; i < 3; i++ {
 		<-done
 	}
-	m := core.Merge(append(append(pa, pb...), pc...))
+	m := core.Merge(append(append(append(pa, pb...), pc...), pd...))
 	ma, mb, mc := core.Merge(pa), core.Merge(pb), core.Merge(pc)
 	// race reports
 	logs, _ := filepath.Glob(filepath.Join(c.OutDir, "race-*"))
